@@ -3,7 +3,7 @@
    All statements are about the model instantiated with the Unicode tables of the Go toolchain
    (Consts.v): go_is_letter, go_is_number, go_to_lower. *)
 From Coq Require Import List Bool NArith.
-From C11 Require Import Model ModelDoc ModelMulti ModelLex CaseDefs ProofsText ProofsPath ProofsSpec ProofsGo ProofsLex ProofsLexGo.
+From C11 Require Import Model ModelDoc ModelMulti ModelLex ModelWire CaseDefs ProofsText ProofsPath ProofsSpec ProofsGo ProofsLex ProofsLexGo ProofsWire.
 Open Scope N_scope.
 
 (* Lower-casing agrees on both sides for EVERY byte string (valid UTF-8 or not, including runes whose
@@ -460,6 +460,145 @@ Example C11_invalid_utf8_roundtrip_witness :
   m_seqql_text (case_ftype [102] TyKeyword) true ([102; 58] ++ render_q 34 [97; 255]) = ROk (QPlain [[TText [97; 239; 191; 189]]]) /\
   fst (kw_tokenize go_to_lower (ICfg true false 72 32768) 0 [97; 255]) = [[97; 255]].
 Proof. exact invalid_utf8_roundtrip_witness. Qed.
+
+(* ================================================================= phase 5: the wiring configuration -> tokenizers / query side *)
+
+(* All theorems above are stated for ONE configuration record c used on both sides (the tokenizers run with c, the query
+   side with cs c). The binary has no such record: cmd/seq-db copies three flags into bulk.IngestorConfig and one of them
+   into conf.CaseSensitive; NewIngestor passes the fields POSITIONALLY (an int and two adjacent bools) to three
+   constructors and files the results in a map keyed by mapping type, from which index() picks the tokenizer.
+   ModelWire.wire transcribes that chain. For EVERY start-up configuration: each of the three tokenizers runs with the
+   configuration's own case mode, partial-indexing flag and token size (the text tokenizer with
+   consts.MaxTextFieldValueLength as its default field length), the parsers read the same case mode, and the map holds
+   under every mapping type the tokenizer of that type (no tokenizer for object / tags / nested / noop). *)
+Theorem C11_wiring_consistent :
+  forall f,
+    let w := wire f in
+    (cs (keyword_cfg w) = flagCaseSensitive f /\ partial (keyword_cfg w) = flagPartialFieldIndexing f /\
+     max_tok (keyword_cfg w) = flagMaxTokenSize f) /\
+    (cs (text_cfg w) = flagCaseSensitive f /\ partial (text_cfg w) = flagPartialFieldIndexing f /\
+     max_tok (text_cfg w) = flagMaxTokenSize f /\ def_field (text_cfg w) = MaxTextFieldValueLength) /\
+    (cs (path_cfg w) = flagCaseSensitive f /\ partial (path_cfg w) = flagPartialFieldIndexing f /\
+     max_tok (path_cfg w) = flagMaxTokenSize f) /\
+    query_cfg w = flagCaseSensitive f /\
+    (forall ty, match binary_tokenizers f ty with
+                | Some (TkKeyword _) => ty = TyKeyword
+                | Some (TkText _) => ty = TyText
+                | Some (TkPath _) => ty = TyPath
+                | Some TkExists => ty = TyExists
+                | None => has_tokenizer ty = false
+                end).
+Proof. exact wiring_consistent. Qed.
+Print Assumptions C11_wiring_consistent.
+
+(* Hence the bulk path of the binary started with flags f — the indexer's traversal with the tokenizer looked up in the
+   MAP for every title (ModelWire.doc_metas_w / index_types_w / tk_tokenize over the structs the constructors built) —
+   and its query side ARE the one-configuration model under flags_cfg f: for every mapping, document, type, per-field
+   size and value. Every theorem of phases 1-4 therefore speaks about every configuration the binary can be started
+   with (instantiate c := flags_cfg f). *)
+Theorem C11_wired_equals_model :
+  forall f,
+    (forall m doc, go_binary_doc_metas f m doc = doc_metas go_is_letter go_is_number go_to_lower m (flags_cfg f) doc) /\
+    (forall ty fmax v, go_binary_tokenize f ty fmax v = tokenize go_is_letter go_is_number go_to_lower ty (flags_cfg f) fmax v) /\
+    (forall ty s, go_binary_query false f ty s = query_lits go_is_letter go_is_number go_to_lower ty (cs (flags_cfg f)) s) /\
+    (forall ty s, go_binary_query true f ty s = lquery_lits go_is_letter go_is_number go_to_lower ty (cs (flags_cfg f)) s).
+Proof. exact go_wired_equals_model. Qed.
+Print Assumptions C11_wired_equals_model.
+
+(* The three findability statements written out for the wired binary (SeqQL): tokens = what the tokenizer found in the
+   map emits, query = what the parser makes under conf.CaseSensitive as main() set it. *)
+Theorem C11_wired_keyword_findable :
+  forall f fmax v,
+    let c := flags_cfg f in
+    let p := indexed_part TyKeyword c fmax v in
+    if skipped TyKeyword c fmax v then go_binary_tokenize f TyKeyword fmax v = []
+    else exists t, go_binary_tokenize f TyKeyword fmax v = [t] /\
+         (has_rune WildcardRune p = false -> (flagCaseSensitive f = false \/ valid_utf8 p = true) ->
+          go_binary_query false f TyKeyword p = Some [[TText t]] /\
+          query_finds [[TText t]] (go_binary_tokenize f TyKeyword fmax v) = true).
+Proof. exact go_wired_keyword_findable. Qed.
+Print Assumptions C11_wired_keyword_findable.
+
+Theorem C11_wired_text_words_findable :
+  forall f fmax v, v <> [] ->
+    let c := flags_cfg f in
+    let p := indexed_part TyText c fmax v in
+    let toks := go_binary_tokenize f TyText fmax v in
+    if skipped TyText c fmax v then toks = []
+    else toks = map (go_word_token c) (filter (sizeok c) (words_of go_is_letter go_is_number (segs p) []))
+         /\ (forall w, In w (words_of go_is_letter go_is_number (segs p) []) ->
+               go_binary_query false f TyText w = Some [[TText (go_word_token c w)]] /\
+               (sizeok c w = true -> query_finds [[TText (go_word_token c w)]] toks = true)).
+Proof. exact go_wired_text_findable. Qed.
+Print Assumptions C11_wired_text_words_findable.
+
+Theorem C11_wired_path_prefix_findable :
+  forall f fmax v,
+    let c := flags_cfg f in
+    let p := indexed_part TyPath c fmax v in
+    let toks := go_binary_tokenize f TyPath fmax v in
+    if skipped TyPath c fmax v then toks = []
+    else toks = map (go_ptok c) (path_prefixes [] p ++ [p])
+         /\ (forall q, In q (path_prefixes [] p ++ [p]) ->
+               has_rune WildcardRune q = false -> (flagCaseSensitive f = false \/ valid_utf8 q = true) ->
+               go_binary_query false f TyPath q = Some [[TText (go_ptok c q)]] /\
+               query_finds [[TText (go_ptok c q)]] toks = true).
+Proof. exact go_wired_path_findable. Qed.
+Print Assumptions C11_wired_path_prefix_findable.
+
+(* the traversal theorem for the wired binary: every reached field has `_exists_:<title>` and its tokenizer's tokens
+   (the tokenizer the MAP holds for the title's type) in one meta of what the bulk path hands to the store *)
+Theorem C11_wired_flatten_findable :
+  forall f m doc fld x, reach m [] doc fld x ->
+    let c := flags_cfg f in
+    exists meta, In meta (go_binary_doc_metas f m doc) /\
+      (forall title ty mx, In (title, ty, mx) (snd (mlookup m fld)) -> has_tokenizer ty = true ->
+         In (K_EXISTS, title_of title fld) meta /\ In (title_of title fld) (field_tokens meta K_EXISTS)) /\
+      (forall v, x = Some v ->
+         forall title ty mx v',
+           In ((title, ty, mx), v') (seen_by go_is_letter go_is_number go_to_lower c (snd (mlookup m fld)) v) ->
+           incl (fst (tokenize_full go_is_letter go_is_number go_to_lower ty c mx v'))
+                (field_tokens meta (title_of title fld)) /\
+           (forall lits,
+              query_finds lits (fst (tokenize_full go_is_letter go_is_number go_to_lower ty c mx v')) = true ->
+              query_finds lits (field_tokens meta (title_of title fld)) = true)).
+Proof. exact go_wired_flatten_findable. Qed.
+Print Assumptions C11_wired_flatten_findable.
+
+(* the hypotheses are inhabited and the wiring is not the identity on records: keyword/path tokenizers carry no field
+   length; flags 8 / case-sensitive / partial: a 10-byte value is indexed by its case-preserved 8-byte prefix *)
+Example C11_wiring_nonvacuous :
+  let f := Flags 8 true true in
+  wire f = (ICfg true true 8 0, ICfg true true 8 32768, ICfg true true 8 0, true) /\
+  go_binary_tokenize f TyKeyword 0 [65; 98; 99; 100; 101; 102; 103; 104; 105; 106] = [[65; 98; 99; 100; 101; 102; 103; 104]] /\
+  go_binary_query false f TyKeyword [65; 98] = Some [[TText [65; 98]]].
+Proof. exact wiring_nonvacuous. Qed.
+
+(* The consistency is a fact about THIS call chain, not about the types: with the two adjacent bool arguments of
+   NewPathTokenizer exchanged (seeded change C11-m10; it compiles and changes nothing while both flags are equal) the
+   path tokenizer's case mode is the partial-indexing flag. --case-sensitive, value "/Api/V1": tokens "/api", "/api/v1";
+   the query made from the value's own leading path "/Api" keeps its case and finds nothing (it does under the real
+   wiring). *)
+Example C11_wiring_swapped_path_refuted :
+  let f := Flags 72 true false in
+  let v := [47; 65; 112; 105; 47; 86; 49] in
+  cs (path_cfg (wire_swapped_path f)) <> flagCaseSensitive f /\
+  skipped TyPath (flags_cfg f) 0 v = false /\
+  In [47; 65; 112; 105] (path_prefixes [] v ++ [v]) /\
+  go_swapped_tokenize f TyPath 0 v = [[47; 97; 112; 105]; [47; 97; 112; 105; 47; 118; 49]] /\
+  go_binary_query false f TyPath [47; 65; 112; 105] = Some [[TText [47; 65; 112; 105]]] /\
+  query_finds [[TText [47; 65; 112; 105]]] (go_swapped_tokenize f TyPath 0 v) = false /\
+  query_finds [[TText [47; 65; 112; 105]]] (go_binary_tokenize f TyPath 0 v) = true.
+Proof. exact swapped_path_refuted. Qed.
+
+(* --partial-indexing --max-token-size 8, value "/api/v1/users": skipped instead of indexed by its prefix *)
+Example C11_wiring_swapped_path_oversize_refuted :
+  let f := Flags 8 false true in
+  let v := [47; 97; 112; 105; 47; 118; 49; 47; 117; 115; 101; 114; 115] in
+  skipped TyPath (flags_cfg f) 0 v = false /\
+  go_swapped_tokenize f TyPath 0 v = [] /\
+  go_binary_tokenize f TyPath 0 v = [[47; 97; 112; 105]; [47; 97; 112; 105; 47; 118; 49]; [47; 97; 112; 105; 47; 118; 49; 47]].
+Proof. exact swapped_path_oversize_refuted. Qed.
 
 (* ================================================================= multi-type fields *)
 (* FULL STATEMENT AIMED AT (C11_multitype_inplace_invariant), NOT PROVED:
